@@ -121,7 +121,11 @@ pub fn start_job(command: Arc<Command>) -> (Job, JoinHandle<()>) {
 							}
 						}
 					}
-					Some(ControlMessage { control, done }) = receiver.recv(&mut stop_timer) => {
+					message = receiver.recv(&mut stop_timer) => {
+						let Some(ControlMessage { control, done }) = message else {
+							trace!("all job handles dropped, stopping");
+							break 'main;
+						};
 						match async {
 							trace!(?control, ?command_state, "got control message");
 							#[cfg(test)] eprintln!("[{:?}] control: {control:?}", Instant::now());
